@@ -55,7 +55,8 @@ impl Scn {
 }
 fn fam_code(v: &str) -> i64 {
     match v { "insert" => 1, "remove" => 2, "drain" => 3, "splice" => 4, "clear" => 5, "clone" => 6, "from_other" => 7, "lazy" => 8,
-              "reserve" => 9, "shrink" => 10, _ => v.parse().unwrap_or(0) }
+              "reserve" => 9, "shrink" => 10, "range" => 11, "mismatch" => 12, "iter" => 13, "views" => 14, "swap" => 15,
+              "rawparts" => 16, "growth" => 17, "stack" => 18, "get" => 19, "lazyall" => 20, "heap" => 21, _ => v.parse().unwrap_or(0) }
 }
 
 type V<const N: usize> = AnyVec<dyn Cloneable, Heap>;
@@ -195,6 +196,10 @@ fn run<const N: usize>(s: &Scn) -> Result<(), String> {
         // after a user-code panic: every visible element appears once
         let mut seen = got.clone(); seen.sort(); let n0 = seen.len(); seen.dedup();
         if seen.len() != n0 { return Err(format!("after the panic an element is visible twice: {:?}", got)); }
+        if N >= 4 {
+            let dead: Vec<u32> = got.iter().cloned().filter(|i| DROPS.with(|d| d.borrow().get(i).cloned().unwrap_or(0) > 0)).collect();
+            if !dead.is_empty() { return Err(format!("after the panic destroyed elements are still visible: {:?}", dead)); }
+        }
     }
     if v.len() > v.capacity() { return Err("len > capacity".into()); }
     drop(v);
@@ -212,7 +217,345 @@ fn run<const N: usize>(s: &Scn) -> Result<(), String> {
     Ok(())
 }
 
+
+// ---- additional scenario families (self-contained, exhaustive over small instances) -------------------
+fn vec_of<const N: usize>(n: usize) -> (V<N>, Vec<u32>) { fill::<N>(n, n + 2, 1) }
+
+/// every RangeBounds form against Vec (drain)
+fn fam_range<const N: usize>() -> Result<(), String> {
+    use std::ops::Bound::*;
+    for len in 0..=3usize {
+        let vals: Vec<usize> = vec![0, 1, 2, 3, 4, usize::MAX - 1, usize::MAX];
+        for sk in 0..3 { for ek in 0..3 { for &sv in &vals { for &ev in &vals {
+            let sb = match sk { 0 => Included(sv), 1 => Excluded(sv), _ => Unbounded };
+            let eb = match ek { 0 => Included(ev), 1 => Excluded(ev), _ => Unbounded };
+            let (mut v, mut m) = vec_of::<N>(len);
+            let want = catch_unwind(AssertUnwindSafe(|| { let d: Vec<u32> = m.drain((sb, eb)).collect(); d }));
+            let got = catch_unwind(AssertUnwindSafe(|| { let d: Vec<u32> = v.drain((sb, eb)).map(|e| e.downcast::<El<N>>().unwrap().id()).collect(); d }));
+            match (want, got) {
+                (Ok(a), Ok(b)) => { if maskv::<N>(&a) != maskv::<N>(&b) || maskv::<N>(&ids::<N>(&v)) != maskv::<N>(&m) { return Err(format!("drain({:?},{:?}) on len {}: yielded {:?} / left {:?}, Vec yields {:?} / leaves {:?}", sb, eb, len, b, ids::<N>(&v), a, m)); } }
+                (Err(_), Err(_)) => { if ids::<N>(&v).len() != len { return Err(format!("invalid range ({:?},{:?}) changed the vector", sb, eb)); } }
+                (Ok(_), Err(_)) => return Err(format!("drain({:?},{:?}) on len {} panicked, Vec accepts it", sb, eb, len)),
+                (Err(_), Ok(_)) => return Err(format!("drain({:?},{:?}) on len {} returned, Vec panics", sb, eb, len)),
+            }
+        } } } }
+    }
+    Ok(())
+}
+
+/// values of the wrong runtime type must be refused (push / insert / splice), vector unchanged (valid for splice)
+fn fam_mismatch() -> Result<(), String> {
+    for len in 0..=3usize { for index in 0..=len {
+        let mut v: AnyVec = AnyVec::new::<u64>();
+        { let mut t = v.downcast_mut::<u64>().unwrap(); for i in 0..len { t.push(i as u64 + 1); } }
+        let before: Vec<u64> = v.downcast_ref::<u64>().unwrap().as_slice().to_vec();
+        let r = catch_unwind(AssertUnwindSafe(|| v.insert(index, AnyValueWrapper::new(7i64))));
+        if r.is_ok() { return Err(format!("insert({}, i64 value) into a vector of u64 (len {}) was accepted", index, len)); }
+        if v.downcast_ref::<u64>().unwrap().as_slice() != &before[..] { return Err("refused insert changed the vector".into()); }
+        let r = catch_unwind(AssertUnwindSafe(|| v.push(AnyValueWrapper::new([0u8; 8]))));
+        if r.is_ok() { return Err(format!("push([u8;8] value) into a vector of u64 (len {}) was accepted", len)); }
+        for bad_at in 0..3usize {
+            let mut w: AnyVec = AnyVec::new::<u64>();
+            { let mut t = w.downcast_mut::<u64>().unwrap(); for i in 0..len { t.push(i as u64 + 1); } }
+            let xs = [11u64, 12, 13]; let y = 5i64;
+            let items: Vec<AnyValueRaw> = (0..3).map(|i| unsafe { if i == bad_at { AnyValueRaw::new(NonNull::from(&y).cast::<u8>(), 8, TypeId::of::<i64>()) } else { AnyValueRaw::new(NonNull::from(&xs[i]).cast::<u8>(), 8, TypeId::of::<u64>()) } }).collect();
+            let r = catch_unwind(AssertUnwindSafe(|| { drop(w.splice(index.min(len)..len, items)); }));
+            if r.is_ok() { return Err(format!("splice whose replacement #{} is an i64 was accepted by a vector of u64", bad_at)); }
+            if w.len() > w.capacity() { return Err("after the refused splice len > capacity".into()); }
+        }
+    } }
+    Ok(())
+}
+
+/// every next/next_back interleaving against Vec for iter, iter_mut and drain; size_hint at every step
+fn fam_iter<const N: usize>() -> Result<(), String> {
+    for len in 0..=4usize { for start in 0..=len { for end in start..=len { for bits in 0..(1u32 << (end - start + 2)) {
+        let steps = end - start + 2;
+        for kind in 0..3 {
+            if kind < 2 && (start != 0 || end != len) { continue; }
+            let (mut v, mut m) = vec_of::<N>(len);
+            let mut mi = m[start..end].iter();
+            macro_rules! drive { ($it:expr, $id:expr) => {{ let mut it = $it;
+                for s in 0..steps {
+                    let rem = mi.len();
+                    if it.size_hint() != (rem, Some(rem)) || it.len() != rem { return Err(format!("size_hint {:?} / len {} but {} items remain (kind {}, len {}, range {}..{}, step {})", it.size_hint(), it.len(), rem, kind, len, start, end, s)); }
+                    let front = bits >> s & 1 == 0;
+                    let (a, b) = if front { (it.next().map($id), mi.next().cloned()) } else { (it.next_back().map($id), mi.next_back().cloned()) };
+                    if a.map(mask::<N>) != b.map(mask::<N>) { return Err(format!("{} yielded {:?}, Vec yields {:?} (kind {}, len {}, range {}..{}, step {}, choices {:b})", if front { "next" } else { "next_back" }, a, b, kind, len, start, end, s, bits)); }
+                } }}}
+            match kind {
+                0 => drive!(v.iter(), |e| e.downcast_ref::<El<N>>().unwrap().id()),
+                1 => drive!(v.iter_mut(), |e| e.downcast_ref::<El<N>>().unwrap().id()),
+                _ => drive!(v.drain(start..end), |e| e.downcast::<El<N>>().unwrap().id()),
+            }
+        }
+    } } } }
+    Ok(())
+}
+
+#[derive(Clone, Copy)] #[repr(align(32))] struct Al32([u8; 32]);
+/// byte / slice views and storage alignment
+fn fam_views<const N: usize>() -> Result<(), String> {
+    for len in 0..=3usize { for extra in 0..=2usize {
+        let (mut v, m) = fill::<N>(len, len + extra, 1);
+        let cap = v.capacity();
+        let base = v.downcast_ref::<El<N>>().unwrap().as_ptr() as usize;
+        if v.as_bytes().len() != len * N || v.as_bytes().as_ptr() as usize != base { return Err(format!("as_bytes: len {} ptr off {} for {} elements of {} bytes", v.as_bytes().len(), v.as_bytes().as_ptr() as usize - base, len, N)); }
+        if v.as_bytes_mut().len() != len * N { return Err(format!("as_bytes_mut covers {} bytes for {} elements of {} bytes", v.as_bytes_mut().len(), len, N)); }
+        let sp = v.spare_bytes_mut(); let (spl, spp) = (sp.len(), sp.as_ptr() as usize);
+        if spl != (cap - len) * N || spp != base + len * N { return Err(format!("spare_bytes_mut: {} bytes at offset {} (len {}, cap {}, size {})", spl, spp - base, len, cap, N)); }
+        let mut t = v.downcast_mut::<El<N>>().unwrap();
+        let sc = t.spare_capacity_mut(); if sc.len() != cap - len || sc.as_ptr() as usize != base + len * N { return Err("spare_capacity_mut does not follow the elements".into()); }
+        if t.as_slice().len() != len { return Err("as_slice length".into()); }
+    } }
+    let e: AnyVec = AnyVec::new::<Al32>();
+    if e.downcast_ref::<Al32>().unwrap().as_ptr() as usize % 32 != 0 { return Err("empty Heap vector of an align(32) type: storage pointer misaligned".into()); }
+    let e2: AnyVec<dyn None, any_vec::mem::Empty> = AnyVec::new::<Al32>();
+    if e2.downcast_ref::<Al32>().unwrap().as_ptr() as usize % 32 != 0 { return Err("Empty-backed vector of an align(32) type: storage pointer misaligned".into()); }
+    let mut h: AnyVec = AnyVec::new::<Al32>(); h.downcast_mut::<Al32>().unwrap().push(Al32([0; 32]));
+    h.clear(); h.shrink_to_fit();
+    if h.downcast_ref::<Al32>().unwrap().as_ptr() as usize % 32 != 0 { return Err("shrunk-to-empty Heap vector of an align(32) type: storage pointer misaligned".into()); }
+    Ok(())
+}
+
+/// swap through every pairing of handle kinds, 32-byte elements
+fn fam_swap() -> Result<(), String> {
+    type E = El<32>;
+    fn full(id: u32) -> E { let mut e = E::new(id); for i in 4..32 { e.0[i] = (id as u8).wrapping_mul(7).wrapping_add(i as u8); } e }
+    fn same(a: &E, id: u32) -> bool { a.0 == full(id).0 }
+    for ka in 0..4 { for kb in 0..4 {
+        let mut va: AnyVec = AnyVec::new::<E>(); let mut vb: AnyVec = AnyVec::new::<E>();
+        { let mut t = va.downcast_mut::<E>().unwrap(); for i in 0..3 { t.push(full(10 + i)); } }
+        { let mut t = vb.downcast_mut::<E>().unwrap(); for i in 0..3 { t.push(full(20 + i)); } }
+        let (mut oa, mut ob) = (full(30), full(40));
+        macro_rules! with_b { ($a:expr) => {{ let a = $a;
+            match kb { 0 => { let mut b = vb.at_mut(1); a.swap(&mut *b); }
+                       1 => { let mut b = vb.remove(1); if b.size() != 32 || b.as_bytes().len() != 32 { return Err(format!("removal handle reports size {} / {} bytes for a 32-byte element", b.size(), b.as_bytes().len())); } a.swap(&mut b); std::mem::forget(b); unsafe { vb.set_len(3) }; }
+                       2 => { let mut b = AnyValueWrapper::new(std::mem::replace(&mut ob, full(0))); a.swap(&mut b); ob = b.downcast::<E>().unwrap(); }
+                       _ => { let mut b = unsafe { AnyValueRaw::new(NonNull::from(&mut ob).cast::<u8>(), 32, TypeId::of::<E>()) }; a.swap(&mut b); } } }}}
+        match ka { 0 => { let mut a = va.at_mut(1); with_b!(&mut *a); }
+                   1 => { let mut a = va.remove(1); with_b!(&mut a); std::mem::forget(a); unsafe { va.set_len(3) }; }
+                   2 => { let mut a = AnyValueWrapper::new(std::mem::replace(&mut oa, full(0))); with_b!(&mut a); oa = a.downcast::<E>().unwrap(); }
+                   _ => { let mut a = unsafe { AnyValueRaw::new(NonNull::from(&mut oa).cast::<u8>(), 32, TypeId::of::<E>()) }; with_b!(&mut a); } }
+        let (ida, idb) = (if ka < 2 { 11 } else { 30 }, if kb < 2 { 21 } else { 40 });
+        let sa = va.downcast_ref::<E>().unwrap().as_slice(); let sb = vb.downcast_ref::<E>().unwrap().as_slice();
+        let na = if ka < 2 { &sa[1] } else { &oa }; let nb = if kb < 2 { &sb[1] } else { &ob };
+        if !same(na, idb) || !same(nb, ida) { return Err(format!("swap of handle kinds ({}, {}) did not exchange exactly the two 32-byte values", ka, kb)); }
+        if !same(&sa[0], 10) || !same(&sa[2], 12) || !same(&sb[0], 20) || !same(&sb[2], 22) { return Err(format!("swap of handle kinds ({}, {}) changed another element", ka, kb)); }
+        std::mem::forget(va); std::mem::forget(vb); std::mem::forget(oa); std::mem::forget(ob);
+    } }
+    Ok(())
+}
+
+/// raw parts round trip (Heap, Empty) incl. a field-wise clone of the parts
+fn fam_rawparts<const N: usize>() -> Result<(), String> {
+    for len in 0..=3usize { for extra in 0..=2usize {
+        let (v, m) = fill::<N>(len, len + extra, 1);
+        let (cap, lay, tid) = (v.capacity(), v.element_layout(), v.element_typeid());
+        let p = v.into_raw_parts();
+        if p.len != len || p.capacity != cap || p.element_layout != lay || p.element_typeid != tid { return Err(format!("into_raw_parts reports len {} cap {} (true {} {})", p.len, p.capacity, len, cap)); }
+        let q = p.clone();
+        if q.len != p.len || q.capacity != p.capacity || q.element_layout != p.element_layout || q.element_typeid != p.element_typeid || q.mem_handle != p.mem_handle
+            { return Err(format!("RawParts::clone reports len {} capacity {} for len {} capacity {}", q.len, q.capacity, p.len, p.capacity)); }
+        let v2: V<N> = unsafe { AnyVec::from_raw_parts(p) };
+        if maskv::<N>(&ids::<N>(&v2)) != maskv::<N>(&m) || v2.capacity() != cap || v2.element_layout() != lay { return Err("rebuilt vector differs from the original".into()); }
+        let c = v2.clone(); if c.len() != len { return Err("clone function lost in the round trip".into()); }
+    } }
+    let e: AnyVec<dyn None, any_vec::mem::Empty> = AnyVec::new::<El<N>>();
+    let lay = e.element_layout();
+    let p = e.into_raw_parts();
+    let e2: AnyVec<dyn None, any_vec::mem::Empty> = unsafe { AnyVec::from_raw_parts(p) };
+    if e2.element_layout() != lay { return Err(format!("Empty round trip changed the element layout to {:?}", e2.element_layout())); }
+    Ok(())
+}
+
+/// amortised growth: reallocations logarithmic in the number of pushes
+fn fam_growth() -> Result<(), String> {
+    for n in [4096usize, 65536] {
+        let mut v: AnyVec = AnyVec::new::<usize>();
+        let (mut changes, mut cap) = (0u32, v.capacity());
+        { let mut t = v.downcast_mut::<usize>().unwrap(); for i in 0..n { t.push(i); if t.capacity() != cap { cap = t.capacity(); changes += 1; } } }
+        let bound = (usize::BITS - n.leading_zeros()) + 2;
+        if changes > bound { return Err(format!("{} pushes caused {} capacity changes (logarithmic bound {})", n, changes, bound)); }
+    }
+    Ok(())
+}
+
+/// Stack / StackN capacities on a small grid, operations at the capacity boundary
+fn fam_stack() -> Result<(), String> {
+    use any_vec::mem::{Stack, StackN};
+    macro_rules! cap_is { ($m:ty, $t:ty, $want:expr) => {{
+        let r = catch_unwind(|| { let v: AnyVec<dyn Cloneable, $m> = AnyVec::new::<$t>(); v.capacity() });
+        match r { Ok(c) => if c != $want { return Err(format!("{} of {}: capacity {} expected {}", stringify!($m), stringify!($t), c, $want)); },
+                  Err(_) => return Err(format!("{} of {}: construction panicked although the elements fit", stringify!($m), stringify!($t))) } }}}
+    cap_is!(Stack<16>, u64, 2); cap_is!(Stack<17>, u64, 2); cap_is!(Stack<15>, u64, 1); cap_is!(Stack<9>, [u8; 3], 3); cap_is!(Stack<0>, (), usize::MAX);
+    cap_is!(StackN<2, 16>, u64, 2); cap_is!(StackN<4, 32>, u64, 4); cap_is!(StackN<3, 9>, [u8; 3], 3); cap_is!(StackN<7, 0>, (), 7); cap_is!(StackN<0, 0>, u64, 0);
+    if catch_unwind(|| { let _v: AnyVec<dyn None, StackN<2, 15>> = AnyVec::new::<u64>(); }).is_ok() { return Err("StackN<2,15> of u64 was built although 2 elements do not fit".into()); }
+    // full fixed-capacity vector: clone, and a splice whose result has exactly the capacity
+    let mut v: AnyVec<dyn Cloneable, StackN<4, 32>> = AnyVec::new::<u64>();
+    { let mut t = v.downcast_mut::<u64>().unwrap(); for i in 0..4 { t.push(i); } }
+    let r = catch_unwind(AssertUnwindSafe(|| { let c = v.clone(); c.downcast_ref::<u64>().unwrap().as_slice().to_vec() }));
+    match r { Ok(c) => if c != vec![0, 1, 2, 3] { return Err(format!("clone of a full StackN vector is {:?}", c)); }, Err(_) => return Err("clone of a full fixed-capacity vector panicked although the contents fit".into()) }
+    let r = catch_unwind(AssertUnwindSafe(|| { drop(v.splice(1..3, [AnyValueWrapper::new(7u64), AnyValueWrapper::new(8u64)])); }));
+    if r.is_err() { return Err("splice on a full fixed-capacity vector panicked although the result fits".into()); }
+    if v.downcast_ref::<u64>().unwrap().as_slice() != &[0, 7, 8, 3] { return Err("splice at the capacity boundary gave a wrong result".into()); }
+    let before = v.downcast_ref::<u64>().unwrap().as_slice().to_vec();
+    if catch_unwind(AssertUnwindSafe(|| v.push(AnyValueWrapper::new(9u64)))).is_ok() { return Err("push beyond a fixed capacity returned".into()); }
+    if v.downcast_ref::<u64>().unwrap().as_slice() != &before[..] { return Err("refused push changed the contents".into()); }
+    let e: AnyVec<dyn Cloneable, Stack<64>> = AnyVec::new::<u64>();
+    if catch_unwind(AssertUnwindSafe(|| { let _ = e.clone(); })).is_err() { return Err("clone of an empty Stack vector panicked".into()); }
+    Ok(())
+}
+
+/// get / at / get_mut at every index incl. len and len + 1
+fn fam_get<const N: usize>() -> Result<(), String> {
+    for len in 0..=4usize { for i in 0..=len + 1 {
+        let (mut v, m) = vec_of::<N>(len);
+        let want = m.get(i).cloned();
+        let got = v.get(i).map(|e| e.downcast_ref::<El<N>>().unwrap().id());
+        if got.map(mask::<N>) != want.map(mask::<N>) { return Err(format!("get({}) on len {} is {:?}, Vec gives {:?}", i, len, got, want)); }
+        let gm = v.get_mut(i).map(|e| e.downcast_ref::<El<N>>().unwrap().id());
+        if gm.map(mask::<N>) != want.map(mask::<N>) { return Err(format!("get_mut({}) on len {} is {:?}", i, len, gm)); }
+        if let Some(e) = v.get(i) { if e.size() != N || e.as_bytes().len() != N || e.value_typeid() != TypeId::of::<El<N>>() { return Err("element handle misreports size / bytes / type".into()); } }
+        let r = catch_unwind(AssertUnwindSafe(|| v.at(i).downcast_ref::<El<N>>().unwrap().id()));
+        if r.is_ok() != (i < len) { return Err(format!("at({}) on len {}: panic expected exactly when out of range", i, len)); }
+    } }
+    Ok(())
+}
+
+
+// ---- auditing global allocator (only active while AUDIT is set; one-slot table: a vector owns at most one block)
+use std::alloc::{GlobalAlloc, Layout, System};
+use std::sync::atomic::{AtomicBool, AtomicUsize, Ordering::SeqCst};
+struct Audit;
+static AUDIT: AtomicBool = AtomicBool::new(false);
+static A_PTR: AtomicUsize = AtomicUsize::new(0);
+static A_SIZE: AtomicUsize = AtomicUsize::new(0);
+static A_ALIGN: AtomicUsize = AtomicUsize::new(0);
+static A_LIVE: AtomicUsize = AtomicUsize::new(0);
+static A_ERR: AtomicUsize = AtomicUsize::new(0);
+fn a_err(c: usize) { let _ = A_ERR.compare_exchange(0, c, SeqCst, SeqCst); }
+fn a_valid(size: usize, align: usize) -> bool { size <= isize::MAX as usize - (align - 1) }
+unsafe impl GlobalAlloc for Audit {
+    unsafe fn alloc(&self, l: Layout) -> *mut u8 {
+        if !AUDIT.load(SeqCst) { return System.alloc(l); }
+        if l.size() == 0 { a_err(1); }
+        let real = if a_valid(l.size(), l.align()) && l.size() < (1 << 32) { l } else { if !a_valid(l.size(), l.align()) { a_err(2); } Layout::from_size_align(64, l.align()).unwrap() };
+        let p = System.alloc(real);
+        if A_LIVE.fetch_add(1, SeqCst) != 0 { a_err(3); }
+        A_PTR.store(p as usize, SeqCst); A_SIZE.store(l.size(), SeqCst); A_ALIGN.store(l.align(), SeqCst);
+        p
+    }
+    unsafe fn dealloc(&self, p: *mut u8, l: Layout) {
+        if !AUDIT.load(SeqCst) || A_PTR.load(SeqCst) != p as usize { return System.dealloc(p, l); }
+        if l.size() != A_SIZE.load(SeqCst) || l.align() != A_ALIGN.load(SeqCst) { a_err(5); }
+        A_LIVE.fetch_sub(1, SeqCst); A_PTR.store(0, SeqCst);
+        let real = if a_valid(A_SIZE.load(SeqCst), l.align()) && A_SIZE.load(SeqCst) < (1 << 32) { Layout::from_size_align(A_SIZE.load(SeqCst), A_ALIGN.load(SeqCst)).unwrap() } else { Layout::from_size_align(64, A_ALIGN.load(SeqCst)).unwrap() };
+        System.dealloc(p, real)
+    }
+    unsafe fn realloc(&self, p: *mut u8, l: Layout, new_size: usize) -> *mut u8 {
+        if !AUDIT.load(SeqCst) || A_PTR.load(SeqCst) != p as usize { return System.realloc(p, l, new_size); }
+        if l.size() != A_SIZE.load(SeqCst) || l.align() != A_ALIGN.load(SeqCst) { a_err(4); }
+        if new_size == 0 { a_err(1); }
+        if !a_valid(new_size, l.align()) { a_err(2); }
+        let old_real = if a_valid(A_SIZE.load(SeqCst), l.align()) && A_SIZE.load(SeqCst) < (1 << 32) { A_SIZE.load(SeqCst) } else { 64 };
+        let new_real = if a_valid(new_size, l.align()) && new_size < (1 << 32) { new_size } else { 64 };
+        let q = System.realloc(p, Layout::from_size_align(old_real, l.align()).unwrap(), new_real);
+        A_PTR.store(q as usize, SeqCst); A_SIZE.store(new_size, SeqCst);
+        q
+    }
+}
+#[global_allocator]
+static GLOBAL: Audit = Audit;
+fn audited<R>(f: impl FnOnce() -> R) -> (R, usize, usize) {
+    A_ERR.store(0, SeqCst); A_LIVE.store(0, SeqCst); A_PTR.store(0, SeqCst);
+    AUDIT.store(true, SeqCst);
+    let r = f();
+    AUDIT.store(false, SeqCst);
+    (r, A_ERR.load(SeqCst), A_LIVE.load(SeqCst))
+}
+fn a_msg(c: usize) -> &'static str { match c { 1 => "a zero-sized request reached the allocator", 2 => "a request with an invalid layout (size overflowing isize) reached the allocator",
+    3 => "more than one allocation owned at a time", 4 => "realloc presented a layout different from the allocation's", 5 => "dealloc presented a layout different from the allocation's", _ => "?" } }
+
+/// heap protocol: histories of capacity calls under the auditing allocator
+fn fam_heap() -> Result<(), String> {
+    macro_rules! hist { ($t:ty, $mk:expr) => {{
+        for n in [0usize, 1, 3, 8] { for m in [0usize, 1, 2, 9] {
+            let (_, err, live) = audited(|| {
+                let mut v: AnyVec = AnyVec::with_capacity::<$t>(n);
+                { let mut t = v.downcast_mut::<$t>().unwrap(); for _ in 0..m { t.push($mk); } }
+                v.reserve(m); v.shrink_to(m / 2 + 1); v.shrink_to_fit(); v.reserve_exact(3);
+                { let mut t = v.downcast_mut::<$t>().unwrap(); t.clear(); }
+                v.shrink_to_fit();
+                let empty_live = A_LIVE.load(SeqCst);
+                drop(v);
+                empty_live
+            });
+            if err != 0 { return Err(format!("{} (element {}, with_capacity({}), {} pushes): {}", "heap history", stringify!($t), n, m, a_msg(err))); }
+            if live != 0 { return Err(format!("element {}, with_capacity({}), {} pushes: {} allocation(s) still live after drop (leak)", stringify!($t), n, m, live)); }
+        } }
+    }}}
+    hist!(u64, 7u64); hist!([u8; 3], [1u8; 3]); hist!((), ()); hist!(Al32, Al32([0; 32]));
+    // shrunk to empty / zero-sized: no allocation at all
+    let (l, err, _) = audited(|| { let mut v: AnyVec = AnyVec::with_capacity::<u64>(4); v.shrink_to_fit(); let l = A_LIVE.load(SeqCst); drop(v); l });
+    if l != 0 || err != 0 { return Err("a vector shrunk to zero capacity still owns an allocation".into()); }
+    let (l, err, _) = audited(|| { let v: AnyVec = AnyVec::with_capacity::<()>(5); let l = A_LIVE.load(SeqCst); drop(v); l });
+    if l != 0 || err != 0 { return Err(format!("a vector of a zero-sized type owns an allocation ({})", a_msg(err))); }
+    // invalid requests must panic before reaching the allocator: from zero and from an existing block
+    let (r, err, _) = audited(|| catch_unwind(|| { let _v: AnyVec = AnyVec::with_capacity::<u8>(isize::MAX as usize + 1); }).is_err());
+    if !r || (err != 0 && err != 3) { return Err(format!("with_capacity::<u8>(isize::MAX + 1): panicked={} / {}", r, a_msg(err))); }
+    let (r, err, _) = audited(|| { let mut v: AnyVec = AnyVec::with_capacity::<u8>(16); let r = catch_unwind(AssertUnwindSafe(|| v.reserve_exact(isize::MAX as usize + 5))).is_err(); std::mem::forget(v); r });
+    if !r || (err != 0 && err != 3) { return Err(format!("reserve_exact(isize::MAX + 5) on an allocated vector: panicked={} / {}", r, a_msg(err))); }
+    let (r, err, _) = audited(|| { let mut v: AnyVec = AnyVec::with_capacity::<u16>(16); let r = catch_unwind(AssertUnwindSafe(|| v.reserve(isize::MAX as usize / 2 + 5))).is_err(); std::mem::forget(v); r });
+    if !r || (err != 0 && err != 3) { return Err(format!("reserve(isize::MAX/2 + 5) of u16 on an allocated vector: panicked={} / {}", r, a_msg(err))); }
+    Ok(())
+}
+
+/// lazy clones: every source kind x consumption kind x chain depth; clones counted per source element
+fn fam_lazyall<const N: usize>() -> Result<(), String> {
+    fn clones(id: u32) -> u32 { CLONES.with(|c| c.borrow().get(&id).cloned().unwrap_or(0)) }
+    for src_kind in 0..5 { for cons in 0..4 { for depth in 1..=3 {
+        CLONES.with(|c| c.borrow_mut().clear()); DROPS.with(|c| c.borrow_mut().clear());
+        let (mut v, m) = fill::<N>(3, 4, 1);
+        let (mut dst, _) = fill::<N>(2, 2, 50);
+        let want = 2u32;   // two consumptions
+        macro_rules! consume { ($e:expr) => {{ let e = $e;
+            for _ in 0..2 {
+                macro_rules! go { ($l:expr) => {{ let l = $l; match cons {
+                    0 => dst.push(l), 1 => dst.insert(1, l),
+                    2 => { drop(dst.splice(0..0, [l])); }
+                    _ => { let x: El<N> = l.downcast::<El<N>>().unwrap(); drop(x); } } }}}
+                match depth { 1 => go!(e.lazy_clone()), 2 => { let a = e.lazy_clone(); go!(a.lazy_clone()) }, _ => { let a = e.lazy_clone(); let b = a.lazy_clone(); go!(b.lazy_clone()) } }
+            }
+            let unused = e.lazy_clone(); let copy = unused.clone(); drop(copy); drop(unused);
+        }}}
+        let id = match src_kind {
+            0 => { let e = v.at(1); consume!(&*e); 2 }
+            1 => { let e = v.at_mut(1); consume!(&*e); 2 }
+            2 => { let mut d = v.drain(1..2); let e = d.next().unwrap(); consume!(&e); drop(e); drop(d); 2 }
+            3 => { let h = v.remove(1); consume!(&h); drop(h); 2 }
+            _ => { let h = v.pop().unwrap(); consume!(&h); drop(h); 3 }
+        };
+        if N >= 4 {
+            if clones(id) != want { return Err(format!("source kind {}, consumption {}, chain depth {}: source element cloned {} times for 2 consumptions", src_kind, cons, depth, clones(id))); }
+            let others: u32 = CLONES.with(|c| c.borrow().iter().filter(|(k, _)| **k != id).map(|(_, v)| *v).sum());
+            if others != 0 { return Err("an element other than the source was cloned".into()); }
+        }
+        let expect_dst = match cons { 0 | 1 | 2 => 4, _ => 2 };
+        if dst.len() != expect_dst { return Err(format!("destination has {} elements, expected {}", dst.len(), expect_dst)); }
+        if N >= 4 && cons < 3 { let di = ids::<N>(&dst); if di.iter().filter(|x| **x == id + CLONE_OFF::<N>()).count() != 2 { return Err(format!("destination {:?} does not hold exactly the 2 clones of element {}", di, id)); } }
+    } } }
+    Ok(())
+}
+
+fn extra(s: &Scn) -> Option<Result<(), String>> {
+    macro_rules! by_size { ($f:ident) => { match s.u("esz") { 1 => $f::<1>(), 3 => $f::<3>(), 12 => $f::<12>(), 16 => $f::<16>(), 24 => $f::<24>(), 160 => $f::<160>(), _ => $f::<8>() } } }
+    Some(match s.g("fam") { 11 => by_size!(fam_range), 12 => fam_mismatch(), 13 => by_size!(fam_iter), 14 => by_size!(fam_views).and_then(|_| fam_views::<3>()).and_then(|_| fam_views::<12>()),
+        15 => fam_swap(), 16 => by_size!(fam_rawparts), 20 => by_size!(fam_lazyall), 21 => fam_heap(), 17 => fam_growth(), 18 => fam_stack(), 19 => by_size!(fam_get), _ => return None })
+}
+
 fn dispatch(s: &Scn) -> Result<(), String> {
+    if let Some(r) = extra(s) { return r; }
     match s.u("esz") { 1 => run::<1>(s), 2 => run::<2>(s), 3 => run::<3>(s), 12 => run::<12>(s), 16 => run::<16>(s),
                        24 => run::<24>(s), 160 => run::<160>(s), _ => run::<8>(s) }
 }
